@@ -70,6 +70,12 @@ type Conn struct {
 
 	Async bool
 
+	// StallBytes > 0 models a full socket send buffer: a single Write of more than StallBytes
+	// bytes delivers the first StallBytes, then blocks until Drain is called, and only then takes
+	// the remaining bytes *from the caller's slice as it is at that moment*.
+	StallBytes int
+	stallCh    chan struct{}
+
 	Hung       bool // a read that can never be satisfied was attempted
 	Spun       bool // SpinLimit reads after EOF/close
 	BadRequest bool // handler sent bytes that are not a request frame
@@ -90,7 +96,38 @@ func NewConn(s *Store, name string) *Conn {
 	return c
 }
 
+// Stalled reports whether a Write is blocked on a full send buffer.
+func (c *Conn) Stalled() bool { c.mu.Lock(); defer c.mu.Unlock(); return c.stallCh != nil }
+
+// Drain lets a stalled Write continue.
+func (c *Conn) Drain() {
+	c.mu.Lock()
+	ch := c.stallCh
+	c.stallCh = nil
+	c.mu.Unlock()
+	if ch != nil {
+		close(ch)
+	}
+}
+
 func (c *Conn) Write(p []byte) (int, error) {
+	if c.StallBytes > 0 && len(p) > c.StallBytes {
+		n1, err := c.write(p[:c.StallBytes])
+		if err != nil {
+			return n1, err
+		}
+		ch := make(chan struct{})
+		c.mu.Lock()
+		c.stallCh = ch
+		c.mu.Unlock()
+		<-ch
+		n2, err := c.write(p[c.StallBytes:])
+		return n1 + n2, err
+	}
+	return c.write(p)
+}
+
+func (c *Conn) write(p []byte) (int, error) {
 	c.mu.Lock()
 	if c.LocalClosed {
 		c.mu.Unlock()
